@@ -861,8 +861,9 @@ Proof.
     unfold new_latest, new_earliest in E3.
     rewrite E1, E2, Hsm, Hem. cbn [Z.eqb negb]. rewrite E3.
     rewrite Hfs. rewrite Hf0. rewrite <- Hf0.
-    assert (E4 : (negb (Nat.eqb (e_expr el) 0) && (e_start el <? e)%Z) = false)
-      by (rewrite Hk0; reflexivity).
+    assert (E4 : ((negb (Nat.eqb (e_expr el) 0) && (e_start el <? e)%Z) ||
+                  (Nat.eqb (e_expr el) 0 && (e_end el <? e)%Z)) = false).
+    { rewrite Hk0. cbn [Nat.eqb negb andb orb]. apply Z.ltb_ge. lia. }
     rewrite E4. cbn [app].
     unfold update_map. rewrite fix_first_id by (exact (wf_chain _ Hwf')).
     reflexivity.
@@ -1638,4 +1639,38 @@ Example ex_total_instance_late :
 Proof.
   apply (C17_total_proof ex_fs ex_vals _ ex_layout_ok ex_vals_ok).
   apply Qle_bool_iff. vm_compute. reflexivity.
+Qed.
+
+(* ------------------------------------------------------------------ *)
+(** * Overlapping frames listed out of chronological order *)
+
+(* default 100000 s, frame 2 = [54000, 54120) with 300000 s, then frame 1 =
+   [18060, 54060) with 150000 s: the second frame starts in the gap in front of
+   the first and reaches 60 s into it.  The code before the repair accepted it
+   (the element the new frame STARTS in is a gap) and left an element of negative
+   length behind: leaving at 53999.875 one arrives later than leaving at 54000.
+   The repaired code answers the second call with the overlap error. *)
+Definition ov_frames : list (Z * Z * nat) := [(54000, 54120, 2%nat); (18060, 54060, 1%nat)]%Z.
+Definition ov_vals (k : nat) : Q :=
+  match k with O => 100000 | S O => 150000 | _ => 300000 end.
+
+Lemma ov_vals_ok : vals_ok ov_vals.
+Proof. intros [|[|k]]; unfold ov_vals; unfold Qle; simpl; lia. Qed.
+
+Example C17_overlap_accepted_refuted_proof :
+  exists x1 x2,
+    snd (set_expressions_lenient td_empty ov_frames) = [SetOk; SetOk] /\
+    vals_ok ov_vals /\ 0 <= 431999 # 8 /\ 431999 # 8 <= 54000 /\
+    value_at_value (fst (set_expressions_lenient td_empty ov_frames)) ov_vals (431999 # 8) = Val x1 /\
+    value_at_value (fst (set_expressions_lenient td_empty ov_frames)) ov_vals 54000 = Val x2 /\
+    54000 + x2 < (431999 # 8) + x1 /\
+    (* the repaired code rejects the second frame and keeps the first *)
+    snd (set_expressions td_empty ov_frames) = [SetOk; SetErr 7] /\
+    td_elems (fst (set_expressions td_empty ov_frames)) = td_elems (fst (set_expressions td_empty [(54000, 54120, 2%nat)]%Z)).
+Proof.
+  eexists. eexists.
+  split; [vm_compute; reflexivity|]. split; [exact ov_vals_ok|].
+  split; [unfold Qle; simpl; lia|]. split; [unfold Qle; simpl; lia|].
+  split; [vm_compute; reflexivity|]. split; [vm_compute; reflexivity|].
+  split; [vm_compute; reflexivity|]. split; vm_compute; reflexivity.
 Qed.
